@@ -107,6 +107,13 @@ func execRules(h *vh.H, op string) string {
 			h.Count("rules.oracle.skipped")
 			continue
 		}
+		if spec.Opt && !spec.Arr && !fd.HasPresence() && v.Absent {
+			// `? type` declares a field whose absence is distinguishable; the compiled field has no presence
+			if ok2, _, _ := j5Accepts(spec, v, true); ok2 && verdict == 'R' {
+				h.Fail("optional-field-without-presence", op, fmt.Sprintf("explicitly optional field left unset is rejected (%s) under %s: proto3_optional is set but the field has no presence", detail, emitted))
+			}
+			continue
+		}
 		switch {
 		case verdict == 'E' && spec.Arr && isMsgKind(spec.Kind) && spec.AUniq != nil && *spec.AUniq && strings.Contains(detail, "repeated.unique"):
 			h.Fail("array-unique-on-message-items", op, fmt.Sprintf("value %s: uniqueItems on an array of messages compiles to repeated.unique, which protovalidate cannot evaluate: %s", vt, detail))
